@@ -59,6 +59,17 @@ def enumerate_paths(body, is_target, limit=4000):
         blk = body.blocks[b]
         env = dict(env)
         for st in blk["stmts"]:
+            if st["k"] == "assign" and not st["lhs"]["p"] and st["rv"]["k"] == "use" and body.local_ty(st["lhs"]["l"]) != "bool":
+                # which parameter (or field of one) a multiply-assigned local holds on this path: `let x = if c { a } else { b };`
+                pl = op_place(st["rv"]["op"])
+                if pl is not None:
+                    src = ("val:%d" % pl["l"]) if (not pl["p"] and ("val:%d" % pl["l"]) in env) else None
+                    if src is not None:
+                        env["val:%d" % st["lhs"]["l"]] = env[src]
+                    else:
+                        root = body.root_place(pl) if hasattr(body, "root_place") else pl
+                        if 0 < root["l"] <= body.arg_count:
+                            env["val:%d" % st["lhs"]["l"]] = repr(G.describe(body, st["rv"]["op"]))
             if st["k"] == "assign" and not st["lhs"]["p"] and body.local_ty(st["lhs"]["l"]) == "bool":
                 rv = st["rv"]
                 l = st["lhs"]["l"]
@@ -79,7 +90,7 @@ def enumerate_paths(body, is_target, limit=4000):
                 else:
                     env[l] = None
         if is_target(b):
-            out.append((b, frozenset(lits), env.get(0)))
+            out.append((b, frozenset(lits), env.get(0), {int(k[4:]): v for k, v in env.items() if isinstance(k, str) and k.startswith("val:")}))
             return
         t = blk["term"]
         if t["k"] == "call" and not t["dest"]["p"] and body.local_ty(t["dest"]["l"]) == "bool":
@@ -142,7 +153,8 @@ def bool_outcomes(paths):
     """split the paths of a bool-returning body (targets = return blocks) into (paths where it returns true, paths where false);
     a returned condition becomes one more literal"""
     pos, neg = [], []
-    for b, lits, r0 in paths:
+    for pth in paths:
+        b, lits, r0 = pth[0], pth[1], pth[2]
         if r0 is None:
             pos.append((b, lits, None))
             neg.append((b, lits, None))
